@@ -38,6 +38,7 @@ class User:
         self.asked_input = set()  # sides that prompted for a passkey
         self.compare = {}         # side -> number shown for comparison
         self.calls = {'i': [], 'r': []}
+        self.log = []             # ['user'|'deliver'|'send', side, code] in the order they happen
         self.changed = None
 
     def _wake(self):
@@ -71,11 +72,13 @@ def make_delegate(user, side, cfg):
         async def accept(self):
             user.calls[side].append('accept')
             await self._delay()
+            user.log.append(['user', side, 1])
             return user.fault != 'reject'
 
         async def confirm(self, auto=False):
             user.calls[side].append('confirm')
             await self._delay()
+            user.log.append(['user', side, 4])
             return user.fault != 'confirm_no_' + side
 
         async def compare_numbers(self, number, digits):
@@ -84,9 +87,11 @@ def make_delegate(user, side, cfg):
             user._wake()
             await self._delay()
             if user.fault == 'compare_no_' + side:
+                user.log.append(['user', side, 4])
                 return False
             while other(side) not in user.compare:
                 await user._wait()
+            user.log.append(['user', side, 4])
             return user.compare[other(side)] == number
 
         async def get_number(self):
@@ -95,6 +100,7 @@ def make_delegate(user, side, cfg):
             user._wake()
             await self._delay()
             if user.fault == 'passkey_none' and side == user.case.get('fault_side', 'r'):
+                user.log.append(['user', side, 2])
                 return None
             # a user types what the other device shows; when the other device has no display
             # (KeyboardOnly / NoInputNoOutput) the agreed number is typed on both
@@ -106,6 +112,7 @@ def make_delegate(user, side, cfg):
                 number = user.displayed[other(side)]
             if user.fault == 'wrong_passkey' and side == user.case.get('fault_side', 'r'):
                 number = (number + user.case.get('passkey_delta', 1)) % 1000000
+            user.log.append(['user', side, 2])
             return number
 
         async def display_number(self, number, digits):
@@ -114,6 +121,8 @@ def make_delegate(user, side, cfg):
             user._wake()
 
         async def generate_passkey(self):
+            await self._delay()
+            user.log.append(['user', side, 3])
             return user.passkey
 
         async def key_distribution_response(self, peer_ikd, peer_rkd):
@@ -311,11 +320,36 @@ async def run_pairing_async(case):
     fault = case.get('fault')
     sessions = {'i': [], 'r': []}
 
+    def pdu_code(pdu):
+        return 500 + pdu[1] if pdu[0] == 5 and len(pdu) > 1 else pdu[0]
+
+    def tap_manager(side):
+        mgr = dev[side].smp_manager
+        orig_pdu, orig_send = mgr.on_smp_pdu, mgr.send_command
+
+        def on_smp_pdu(connection, pdu):
+            user.log.append(['deliver', side, pdu_code(bytes(pdu))])
+            return orig_pdu(connection, pdu)
+
+        def send_command(connection, command):
+            user.log.append(['send', side, pdu_code(bytes(command))])
+            return orig_send(connection, command)
+        mgr.on_smp_pdu = on_smp_pdu
+        mgr.send_command = send_command
+
     def proxy_for(side):
         class S(smp.Session):
             def __init__(self, *a, **kw):
                 super().__init__(*a, **kw)
                 sessions[side].append(self)
+
+            def on_connection_encryption_change(self):
+                user.log.append(['deliver', side, 100])
+                super().on_connection_encryption_change()
+
+            def start_encryption(self, key):
+                user.log.append(['send', side, 100])
+                super().start_encryption(key)
 
             def send_command(self, command):
                 if fault == 'bad_confirm_' + side and isinstance(command, smp.SMP_Pairing_Confirm_Command):
@@ -336,6 +370,7 @@ async def run_pairing_async(case):
                            oob=oob_cfg[side])
         dev[side].pairing_config_factory = lambda connection, pc=pc: pc
         dev[side].smp_session_proxy = proxy_for(side)
+        tap_manager(side)
 
     obs = {'hang': None}
     if not await rig.connect(c):
@@ -373,6 +408,7 @@ async def run_pairing_async(case):
             if quiet > 60:
                 break
     obs['steps'] = steps
+    obs['log'] = [list(x) for x in user.log]
     if task.done():
         exc = task.exception() if not task.cancelled() else 'cancelled'
         if exc is None:
@@ -414,6 +450,11 @@ async def run_pairing_async(case):
         store = await dev[side].keystore.get_all()
         obs['store_' + side] = sorted([[name.split('/')[0] == str(dev[other(side)].random_address).split('/')[0],
                                         keys_obs(k, names)] for name, k in store], key=repr)
+    lk = []
+    for side in ('i', 'r'):
+        for _, k in await dev[side].keystore.get_all():
+            lk.append(k.link_key.value if k.link_key is not None else None)
+    obs['stored_link_keys_equal'] = (lk[0] == lk[1]) if len(lk) == 2 and None not in lk else None
     obs['link_keys'] = [[key_name(a, names), key_name(b, names) if isinstance(b, (bytes, type(None))) else b]
                         for a, b in link_keys]
     obs['displayed'] = {k: v for k, v in sorted(user.displayed.items())}
@@ -495,6 +536,8 @@ async def run_ctkd_async(case):
         obs['setup'] = 'failed'
         return obs
     key_type = case['key_type']
+    kd_i = case.get('kd_i', [case.get('kd', 3)] * 2)
+    kd_r = case.get('kd_r', [case.get('kd', 3)] * 2)
     authenticated = key_type in (hci.LinkKeyType.AUTHENTICATED_COMBINATION_KEY_GENERATED_FROM_P_192,
                                  hci.LinkKeyType.AUTHENTICATED_COMBINATION_KEY_GENERATED_FROM_P_256)
     link_key = bytes(range(0x20, 0x30))
@@ -503,7 +546,8 @@ async def run_ctkd_async(case):
         await rig.devs[i].update_keys(str(rig.conns[i].peer_address), PairingKeys(
             link_key=PairingKeys.Key(value=link_key, authenticated=authenticated), link_key_type=key_type))
         rig.conns[i].encryption = 1
-        delegate = PairingDelegate(PairingDelegate.IoCapability.NO_OUTPUT_NO_INPUT, case['kd'], case['kd'])
+        kd = kd_i if i == 0 else kd_r
+        delegate = PairingDelegate(PairingDelegate.IoCapability.NO_OUTPUT_NO_INPUT, kd[0], kd[1])
         pc = PairingConfig(sc=True, mitm=bool(case.get('mitm', 0)), bonding=True, delegate=delegate)
         rig.devs[i].pairing_config_factory = lambda connection, pc=pc: pc
         rig.conns[i].on('pairing', lambda keys, i=i: events[i].append(('pairing', keys)))
@@ -513,6 +557,9 @@ async def run_ctkd_async(case):
         await asyncio.sleep(0)
         if task.done() and events[0] and events[1]:
             break
+    obs['pair_result'] = 'pending'
+    if task.done():
+        obs['pair_result'] = 'ok' if task.exception() is None else 'error'
     if not task.done():
         task.cancel()
         try:
@@ -522,6 +569,11 @@ async def run_ctkd_async(case):
     await rig.settle()
     obs['setup'] = 'ok'
     obs['link_key_authenticated'] = bool(authenticated)
+    for i, side in ((0, 'i'), (1, 'r')):
+        ks = [e[1] for e in events[i] if e[0] == 'pairing']
+        obs['event_flags_' + side] = None if not ks else [
+            (None if getattr(ks[0], slot) is None else bool(getattr(ks[0], slot).authenticated))
+            for slot in ('ltk', 'ltk_central', 'ltk_peripheral', 'irk', 'csrk', 'link_key')]
     for i, side in ((0, 'i'), (1, 'r')):
         obs['events_' + side] = [e[0] if e[0] == 'pairing' else ['failure', e[1]] for e in events[i]]
         store = await rig.devs[i].keystore.get_all()
@@ -926,6 +978,18 @@ def oracle(case, obs):
     # authenticated only with a MITM-protected model
     if any_authenticated(obs) and kind not in ('PK', 'NC', 'OOB'):
         bad.append(('authenticated:' + tag, f'keys marked authenticated after {kind}: {obs["store_i"]} / {obs["store_r"]}'))
+    # the negotiated identity and signing keys are stored by the side that received them
+    if case.get('fault') is None and obs['store_i'] and obs['store_r']:
+        ikd_n, rkd_n = ci['ikd'] & cr['ikd'], ci['rkd'] & cr['rkd']
+        for side, kd in (('i', rkd_n), ('r', ikd_n)):
+            st = obs['store_' + side][0][1]
+            for slot, bit in (('irk', IDK), ('csrk', SIGN)):
+                if (slot in st) != bool(kd & bit):
+                    bad.append(('negotiated-keys:' + tag, f"side {side} stored {sorted(st)} but the peer's negotiated "
+                                                          f"mask is {kd:#x} ({slot} {'missing' if kd & bit else 'not negotiated'})"))
+    # a BR/EDR link key stored by both sides is one shared key
+    if obs.get('stored_link_keys_equal') is False:
+        bad.append(('link-key-store:' + tag, 'both sides stored a BR/EDR link key from this pairing, and they differ'))
     # a later connection: same key, in both role orders; present when negotiated
     bonded = ci['bonding'] and cr['bonding']
     for label, kd_bit in (('same', ci['rkd'] & cr['rkd'] & ENC), ('swapped', ci['ikd'] & cr['ikd'] & ENC)):
@@ -944,13 +1008,27 @@ def oracle(case, obs):
     return bad
 
 
+def ctkd_masks(case):
+    kd_i = case.get('kd_i', [case.get('kd', 3)] * 2)
+    kd_r = case.get('kd_r', [case.get('kd', 3)] * 2)
+    return kd_i[0] & kd_r[0], kd_i[1] & kd_r[1]      # negotiated initiator / responder masks
+
+
 def ctkd_oracle(case, obs):
     bad = []
-    tag = f"ctkd-kd{case['kd']}-type{case['key_type']}"
+    ikd, rkd = ctkd_masks(case)
+    tag = f"ctkd-kd{ikd:x}{rkd:x}-type{case['key_type']}"
     if obs.get('setup') != 'ok':
         return bad
     if obs['events_i'] != ['pairing'] or obs['events_r'] != ['pairing']:
-        bad.append(('ctkd-incomplete:' + tag, f"CTKD did not complete on both sides: {obs['events_i']} / {obs['events_r']}"))
+        if not (ikd & ENC and rkd & ENC) and obs['pair_result'] != 'pending' \
+                and all(e == 'pairing' for e in obs['events_i'] + obs['events_r']):
+            # known finding D13f: a side whose own mask lacks ENC_KEY ends without reporting anything
+            bad.append(('ctkd-without-enc-key', f"CTKD with negotiated masks {ikd:#x}/{rkd:#x} (a side's own mask lacks "
+                        f"ENC_KEY): pair() {obs['pair_result']} but events {obs['events_i']} / {obs['events_r']}"))
+        else:
+            bad.append(('ctkd-incomplete:' + tag, f"CTKD did not end on both sides: pair() {obs['pair_result']}, "
+                                                  f"{obs['events_i']} / {obs['events_r']}"))
         return bad
     for side in ('i', 'r'):
         for slot, auth in obs['store_' + side]:
@@ -960,6 +1038,42 @@ def ctkd_oracle(case, obs):
                             f"with authenticated=True on side {side}"))
     return bad
 
+
+# ----------------------------------------------------------------------------- message-level trace
+def trace_of(case, obs):
+    """The implementation's run as a schedule of the message-level model: labels (0 deliver to the
+    initiator, 1 deliver to the responder, 2 / 3 the initiator's / responder's user answers), and per
+    step the event consumed and what each side sent."""
+    sc = bool(case['i']['sc'] and case['r']['sc'])
+    steps = []
+    last = {'i': None, 'r': None}
+    first = True
+    for kind, side, code in obs.get('log', []):
+        if kind == 'user' and code == 3 and side == 'r' and not sc:
+            continue                       # the legacy responder displays inline, with accept()
+        if kind == 'send':
+            if first and side == 'i' and code == 1:
+                first = False              # Device.pair(): the Pairing Request (initial state of the model)
+                continue
+            if last[side] is None:
+                steps.append([-1, -3, [], []])
+                last[side] = len(steps) - 1
+            steps[last[side]][2 if side == 'i' else 3].append(code)
+        else:
+            label = ({'i': 0, 'r': 1} if kind == 'deliver' else {'i': 2, 'r': 3})[side]
+            steps.append([label, code if kind == 'deliver' else 1000 + code, [], []])
+            last[side] = len(steps) - 1
+    return steps
+
+
+def trace_expr(case, steps):
+    from lib.verif import coq_list, coq_z
+    m = model_expr(case)
+    assert m.startswith('run_obs ')
+    args = m[len('run_obs '):]
+    labels = coq_list([st[0] for st in steps], coq_z)
+    return (f'match abs_of {args} with Some c => (true, replay_obs c {labels}) '
+            f'| None => (false, ([], (0, 0, 0, 0), 0)) end')
 
 # ----------------------------------------------------------------------------- case generation
 def rand_cfg(rng, io=None, sc=None, mitm=None, bonding=None, full_masks=False):
@@ -983,10 +1097,32 @@ CORPUS = [
     # D13c: secure connections passkey entry with the passkey 000000
     {'i': cfg(io=0, sc=1, mitm=1, ikd=3, rkd=3), 'r': cfg(io=4, sc=1, mitm=0, ikd=3, rkd=3), 'passkey': 0},
     {'i': cfg(io=2, sc=1, mitm=1, ikd=3, rkd=3), 'r': cfg(io=2, sc=1, mitm=1, ikd=3, rkd=3), 'passkey': 0},
+    # a wrong passkey that differs only in the last of the 20 bits
+    {'i': cfg(io=0, sc=1, mitm=1, ikd=3, rkd=3), 'r': cfg(io=2, sc=1, mitm=1, ikd=3, rkd=3),
+     'fault': 'wrong_passkey', 'fault_side': 'r', 'passkey': 123456, 'passkey_delta': 524288},
+    {'i': cfg(io=2, sc=1, mitm=1, ikd=3, rkd=3), 'r': cfg(io=0, sc=1, mitm=1, ikd=3, rkd=3),
+     'fault': 'wrong_passkey', 'fault_side': 'i', 'passkey': 654321, 'passkey_delta': 524288},
+    # the responder's user answers long after the initiator's DHKey check has arrived
+    {'i': cfg(io=1, sc=1, mitm=1, ikd=7, rkd=7), 'r': cfg(io=1, sc=1, mitm=1, ikd=7, rkd=7, delay=40)},
+    {'i': cfg(io=1, sc=1, mitm=1, ikd=7, rkd=7), 'r': cfg(io=4, sc=1, mitm=1, ikd=7, rkd=7, delay=40),
+     'fault': 'compare_no_r'},
+    {'i': cfg(io=3, sc=1, mitm=0, ikd=7, rkd=7), 'r': cfg(io=3, sc=1, mitm=0, ikd=7, rkd=7, delay=40),
+     'fault': 'confirm_no_r'},
+    {'i': cfg(io=3, sc=1, mitm=0, ikd=7, rkd=7, delay=40), 'r': cfg(io=3, sc=1, mitm=0, ikd=7, rkd=7),
+     'fault': 'confirm_no_i', 'link_delay': [3, 0]},
+    # D13d: legacy pairing with LINK_KEY negotiated
+    {'i': cfg(io=3, sc=0, mitm=0, ikd=9, rkd=9), 'r': cfg(io=3, sc=0, mitm=0, ikd=9, rkd=9)},
 ]
 CORPUS_CTKD = [
     # D13b: unauthenticated P-192 combination key
     {'kd': 3, 'key_type': 4},
+    {'kd': 7, 'key_type': 5}, {'kd': 3, 'key_type': 7}, {'kd': 7, 'key_type': 8},
+    # D13e: only ENC_KEY in the masks (the plain "derive the LTK" configuration): nobody completed
+    {'kd': 1, 'key_type': 5},
+    # D13d: LINK_KEY in the masks over BR/EDR
+    {'kd': 11, 'key_type': 5},
+    # D13f (known): a mask without ENC_KEY
+    {'kd': 2, 'key_type': 5},
 ]
 
 
@@ -1012,7 +1148,7 @@ def gen_cases(ctx):
                 cases.append(c)
     # 2. asymmetric configurations
     if quick:
-        for _ in range(50):
+        for _ in range(ctx.n(50, 0)):
             cases.append({'i': rand_cfg(rng), 'r': rand_cfg(rng), 'central': rng.below(2),
                           'passkey': rng.choice([0, 1, 999999, rng.below(1000000)]),
                           'link_delay': [rng.choice([0, 0, 1, 2, 5]), rng.choice([0, 0, 1, 3])]})
@@ -1027,8 +1163,7 @@ def gen_cases(ctx):
                                   'link_delay': [rng.choice([0, 0, 1, 2, 5]), rng.choice([0, 0, 1, 3])]})
     # 3. masks: every negotiated (initiator, responder) mask pair, legacy and SC (thorough), sampled (quick)
     pairs = [(a, b) for a in range(16) for b in range(16)]
-    if quick:
-        pairs = rng.shuffle(pairs)[:24]
+    pairs = rng.shuffle(pairs)[:ctx.n(24, 256)]
     for a, b in pairs:
         for sc in ((rng.below(2),) if quick else (0, 1)):
             ci = cfg(io=3, sc=sc, mitm=0, ikd=a | rng.below(16), rkd=b | rng.below(16))
@@ -1037,7 +1172,7 @@ def gen_cases(ctx):
     # 4. faults
     fault_cfgs = [(2, 2), (4, 4), (0, 2), (2, 0), (4, 2), (1, 4), (1, 1), (3, 3), (4, 1)]
     for fault in FAULTS[1:]:
-        combos = fault_cfgs if not quick else rng.shuffle(fault_cfgs)[:4]
+        combos = rng.shuffle(fault_cfgs)[:ctx.n(4, 9)]
         for (i, r) in combos:
             for sc in (0, 1):
                 for fs in (('i', 'r') if fault in ('wrong_passkey', 'passkey_none') else ('r',)):
@@ -1061,6 +1196,7 @@ def check_pairing_cases(ctx, cases):
     """Run model and implementation on the cases; report disagreements and violations."""
     exprs = [model_expr(c) for c in cases]
     model = ctx.coq_eval(['Model.Pairing'], exprs)
+    traces = []
     for case, m in zip(cases, model):
         obs = run_pairing(case)
         modelled, mview = model_view(m)
@@ -1080,10 +1216,45 @@ def check_pairing_cases(ctx, cases):
             diffs = compare_model(case, mview, impl_view(case, obs))
             if diffs:
                 ctx.disagree('pairing: ' + ', '.join(diffs), case, mview, impl_view(case, obs))
+            traces.append((case, obs, trace_of(case, obs)))
         elif not modelled:
             ctx.count('pairing.not_modelled')
         for sig, what in oracle(case, obs):
             ctx.violation(sig, what, {'kind': 'pairing', 'case': case})
+    check_traces(ctx, traces)
+
+
+def check_traces(ctx, traces):
+    """Message-level correspondence: the model (Model/PairingMsg.v) replays the schedule the
+    implementation actually took; every step must consume the same event and send the same
+    commands, and the model must end where the implementation ended."""
+    exprs = [trace_expr(case, steps) for case, obs, steps in traces]
+    results = ctx.coq_eval(['Model.Pairing', 'Model.PairingMsg'], exprs)
+    for (case, obs, steps), res in zip(traces, results):
+        ok, (msteps, (oi, ri, orr, rr), quiet) = res
+        ctx.count('trace.cases')
+        ctx.count('trace.steps', len(steps))
+        if not ok:
+            ctx.count('trace.not_modelled')
+            continue
+        impl_steps = [[st[1], st[2], st[3]] for st in steps]
+        model_steps = [[ev, list(a), list(b)] for ev, a, b in msteps]
+        out = {'pairing': [1, 0]}
+        def end(side):
+            ev = obs['events_' + side]
+            if not ev:
+                return [0, 0]
+            return [1, 0] if ev[0] == 'pairing' else [2, ev[0][1]]
+        impl_end = end('i') + end('r')
+        model_end = [oi, ri if oi == 2 else 0, orr, rr if orr == 2 else 0]
+        if model_steps != impl_steps or model_end != impl_end or quiet != 1:
+            k = next((j for j in range(min(len(model_steps), len(impl_steps))) if model_steps[j] != impl_steps[j]),
+                     min(len(model_steps), len(impl_steps)))
+            ctx.disagree(f'message-level trace: first difference at step {k}', case,
+                         {'step': model_steps[k] if k < len(model_steps) else None, 'end': model_end, 'quiescent': quiet,
+                          'steps': len(model_steps)},
+                         {'step': impl_steps[k] if k < len(impl_steps) else None, 'end': impl_end, 'steps': len(impl_steps),
+                          'labels': [st[0] for st in steps][:k + 1]})
 
 
 def _case_key(case):
@@ -1095,8 +1266,10 @@ def check_ctkd_cases(ctx, cases):
     exprs = []
     for c in cases:
         auth = c['key_type'] in (5, 8)
-        exprs.append('authenticated_flag (mkEnv true None true true true true 0 None None false false false false '
-                     f'{coq_bool(auth)}) (mkSession true true true false PM_CTKD_OVER_CLASSIC false {c["kd"]} {c["kd"]} [])')
+        kd_i = c.get('kd_i', [c.get('kd', 3)] * 2)
+        kd_r = c.get('kd_r', [c.get('kd', 3)] * 2)
+        exprs.append(f'ctkd_obs (mkConfig 3 true false true {kd_i[0]} {kd_i[1]} false) '
+                     f'(mkConfig 3 true false true {kd_r[0]} {kd_r[1]} false) {coq_bool(auth)}')
     model = ctx.coq_eval(['Gen.C13Tables', 'Model.Pairing'], exprs)
     ran = 0
     for c, m in zip(cases, model):
@@ -1106,18 +1279,27 @@ def check_ctkd_cases(ctx, cases):
             ctx.count('ctkd.setup_failed')
             continue
         ran += 1
-        ctx.case(('ctkd', c['kd'], c['key_type']), True, None)
-        flags = sorted(set(a for side in ('i', 'r') for _, a in obs['store_' + side]))
-        if obs['events_i'] == ['pairing'] and flags != [bool(m)]:
-            ctx.disagree('ctkd authenticated flag', c, bool(m), obs)
+        ctx.case(('ctkd', _case_key(c)), True, None)
+        # model: per side the slots [ltk, ltk_central, ltk_peripheral, irk, csrk, link_key] it stores
+        def flags(side_keys):
+            side_keys = [list(x) for x in side_keys]
+            if not side_keys:
+                return None
+            return [(bool(x[-1]) if x else None) for x in side_keys]
+        mi, mr = (flags(m[0]), flags(m[1])) if len(m) == 2 else (None, None)
+        got = (obs['event_flags_i'], obs['event_flags_r'])
+        if (mi, mr) != got:
+            ctx.disagree('ctkd: what each side reports and stores', c, [mi, mr], [got[0], got[1], obs['pair_result']])
         for sig, what in ctkd_oracle(c, obs):
             ctx.violation(sig, what, {'kind': 'ctkd', 'case': c})
     ctx.extra['ctkd_runs'] = ran
 
 
 def regen(ctx):
+    from translate.c13_skeleton import render as render_skeleton
     from translate.c13_tables import render
     ctx.write_gen('C13Tables', render())
+    ctx.write_gen('C13Skeleton', render_skeleton())
 
 
 def run(ctx):
@@ -1146,11 +1328,7 @@ def run(ctx):
     decide_correspondence(ctx)
     cases = gen_cases(ctx)
     check_pairing_cases(ctx, cases)
-    ctkd = list(CORPUS_CTKD)
-    for kd in (3, 7):
-        for kt in ((4, 5) if ctx.quick() else (4, 5, 7, 8)):
-            if {'kd': kd, 'key_type': kt} not in ctkd:
-                ctkd.append({'kd': kd, 'key_type': kt})
+    ctkd = [dict(c) for c in CORPUS_CTKD]
     import glob
     import json
     import os
@@ -1160,6 +1338,13 @@ def run(ctx):
             obj = json.load(f)
         if obj.get('kind') == 'ctkd' and obj['case'] not in ctkd:
             ctkd.append(obj['case'])
+    # negotiated (initiator, responder) masks: a sample (quick) / all 16 x 16 (thorough)
+    pairs = ctx.rng.shuffle([(a, b) for a in range(16) for b in range(16)])[:ctx.n(14, 256)]
+    for a, b in pairs:
+        x, y = ctx.rng.below(16), ctx.rng.below(16)
+        ctkd.append({'kd_i': [a | x, b | y],
+                     'kd_r': [a | (ctx.rng.below(16) & ~x & 15), b | (ctx.rng.below(16) & ~y & 15)],
+                     'key_type': ctx.rng.choice([4, 5, 7, 8])})
     check_ctkd_cases(ctx, ctkd)
 
 
